@@ -235,7 +235,7 @@ func checkBufferBounds(f *ssa.Function, only func(buf ssa.Value) bool) (int, []b
 		for _, in := range b.Instrs {
 			switch x := in.(type) {
 			case *ssa.Slice:
-				if !isBytes(x.X.Type()) || (only != nil && !only(x.X)) {
+				if (only == nil && !isBytes(x.X.Type())) || (only != nil && !only(x.X)) {
 					continue
 				}
 				lenX := lenOfBuffer(x.X)
@@ -254,11 +254,11 @@ func checkBufferBounds(f *ssa.Function, only func(buf ssa.Value) bool) (int, []b
 					}
 				}
 			case *ssa.IndexAddr:
-				if !isBytes(x.X.Type()) || (only != nil && !only(x.X)) {
+				if (only == nil && !isBytes(x.X.Type())) || (only != nil && !only(x.X)) {
 					continue
 				}
 				lenX := lenOfBuffer(x.X)
-				if len(lenX.terms) == 0 && !isDataDerived(x.Index, 0, map[ssa.Value]bool{}) {
+				if only == nil && len(lenX.terms) == 0 && !isDataDerived(x.Index, 0, map[ssa.Value]bool{}) {
 					continue // fixed-size local buffer indexed by a counter: not an input-controlled access
 				}
 				n++
